@@ -20,6 +20,11 @@ went through the same functions (process-wide scratch state); caller arrays unch
 Object histories: a post-hook on Signal.reset_values (every mutator ends there) and the values digest of the last monitored
 call tell the get_max_stockwell_freq monitor that the values changed; the trace must then be that of the current record.
 Every clause about values carries the parity of the record length ([even]/[odd]; odd lengths exercise the truncation).
+Round 3 (audit items 22-27): f(A); f(B); f(A) for every function (B of the same / another shape, non-finite, rejected by the
+library) and one argument object whose contents are replaced between the calls (drive_aba); copy.copy / copy.deepcopy / pickle
+round trips of AccSignal, Signal and Cluster members in every cache state followed by reads, resets, mutators, assignments
+through the public attribute names and refused operations on copy and original (drive_protocols): every read is judged online
+by the monitor and, driver side, against the reference transform of the values that object has at that moment.
 """
 import collections
 import math
@@ -35,7 +40,7 @@ TECHNIQUE = ('runtime post-condition monitors on transform / transform_w_scipy_f
              'get_max_tifq_vals_freq with a direct-sum (no FFT) reference S-transform and DFT; argument-purity monitors; '
              'driver-side linearity relation and back-to-back re-checks of held results')
 RULE = ('cases = (record, container, implementation | dt) calls of the real functions. Definition part: EVERY length 4..64 x '
-        '27 record classes (noise, ground-motion windows, walks, chirps, impulses, steps, plateaus, constants, flat starts/ends, '
+        '31 record classes (noise, ground-motion windows, walks, chirps, impulses, steps, plateaus, constants, flat starts/ends, '
         'extreme at the first/last sample, sign change at the last step, small signal on a large offset, micro 1e-12..1e-9 '
         'and macro 1e9..1e12 amplitudes, monotone ramps, one-sided negative records, Nyquist-frequency energy on top of noise, '
         'tail-heavy (exact zeros then action in the last 1/8), a constant with one changed sample, one sample 1e3..1e12 times '
@@ -56,13 +61,27 @@ RULE = ('cases = (record, container, implementation | dt) calls of the real func
         'log-uniform over [1e-9, 1e3], [1e-3, 1], gen.awkward_dt for k = N/2 and k = N (quotients that do not recover k); Python float / int / numpy float64 / float32 scalars). For every N '
         'of the every-N block one same-object history: twin objects from one caller array and from each other\'s values, '
         'repeated calls (cached swtf), reads of other cached quantities in between, the caller-presets-swtf idiom, then '
-        'reset_values and 3 of 8 further mutators (add_constant, add_series, remove_average, remove_poly, butter_pass, '
-        'running_average, same / shorter reset) each followed by a call judged against the CURRENT values, the re-preset '
+        'reset_values and 3 of 13 further mutators (add_constant, add_series, remove_average, remove_poly, butter_pass, '
+        'running_average, same / shorter reset, low-pass within 1 % of Nyquist, high-pass below 1e-3 of it, a band touching both, '
+        'list / tuple reset) each followed by a call judged against the CURRENT values whether the mutator raised or not, the re-preset '
         'idiom after a mutation (judged) and a foreign swtf attached after a mutation (counted); and one multi-object '
         'history: two components (on-grid sinusoid pair, every third a random pair; none / one / both analysed first) combined '
         'with combine_at_angle at 4 angles out of {0, 30, 90, 180, 270, -90, 360, 45.5, -30.25, 123.4, U(-360,360)}, each '
         'combination analysed twice, then interp_to_approx_dt of an analysed object, a deep copy analysed / mutated / analysed, '
         'and Cluster members analysed before and after same_start. '
+        'Round 3: record classes silent (all +0.0 / -0.0), last-only (odd n: silent even part), positive-only, non-positive with '
+        'exact zeros; x - x in the linearity relation; every definition case also as f(A); f(B); f(A) through all five functions '
+        '(B cycling over same shape / another length / one nan or inf sample / scalar, string, length-1, None) and, for B of the '
+        'same shape, ONE buffer refilled A, B, A between three calls of transform, itransform and get_max_tifq_vals_freq; for every '
+        'N of the every-N block and for one in eight definition cases (every class, every length 4..64) one protocol history: '
+        'object kind in {AccSignal, Signal, Cluster member, whole Cluster} x cache state in {cold, Stockwell, spectra, velocity / '
+        'displacement / peaks, response spectra, all} x {copy.copy, copy.deepcopy, pickle protocol 2 / 4 / 5}, reads first or not, '
+        'then 5 random steps on the original or the copy out of: reset_values (array / list / tuple), 13 mutators (now with '
+        'Butterworth corners within 1 % of Nyquist and below 1e-3 of it; deep copies only), assignment to values / dt / npts / '
+        'label / time / smooth_fa_freqs / smooth_fa_frequencies / response_times (list / tuple / array; 1, 2, 3 entries or a whole '
+        'record), 12 refused operations (add_series of a wrong length, add_signal with another dt / a string, three bad cut-offs, '
+        'negative polynomial order, ragged / scalar / nan / inf reset); the touched object is read after every step, both objects '
+        'twice at the end; a mutator that raises in a same-object history is now followed by a judged call as well. '
         'distinct = digest(record, options); non-trivial = record with at least two distinct values.')
 ASSUMPTIONS = ['real, finite records of length 4..1024 (complex input, scalars, lengths 1..3 and > 1024 are counted, not judged; '
                'records past 2**16 are not driven: the (n/2 x n) result alone would take 34 GB)',
@@ -79,8 +98,19 @@ ASSUMPTIONS = ['real, finite records of length 4..1024 (complex input, scalars, 
                'mutator; all end in reset_values; a change of values seen between two monitored calls counts too) must report '
                'the trace of the CURRENT record (clause maxfreq(asig)==f.after-mutation) unless the caller attached another swtf '
                'object after the change; an swtf the caller attached explicitly (at construction or after the last change) is '
-               'honoured: judged when it is a monitored transform of the current values, counted otherwise; a mutator that '
-               'raises is another property\'s business (counted)',
+               'honoured: judged when it is a monitored transform of the current values, counted otherwise; whether a mutator '
+               'raises is another property\'s business (counted), but the call that follows is judged against the values the '
+               'object then has (refused operations must leave it as it was or completely updated)',
+               'round 3: a read of an object whose values are no record of the statement (0-d after the half-finished '
+               'reset_values(scalar) of the clean code, length < 4 after a shorter reset of a short record, nan / inf accepted by '
+               'reset_values) is counted, not judged, also when it raises; the object is judged again after the next complete reset',
+               'round 3: shallow copies share the value buffer by definition: after copy.copy only rebinding resets, assignments and '
+               'refused operations are driven, and the history stops (counted) if the two objects still share memory after a reset',
+               'round 3: third-call==first-call / refilled-argument.third==first: transform and inverse to 2 RTOL (both satisfy the '
+               'definition to RTOL); the two traces bit-for-bit, and only when the arrays they were taken from are bit-for-bit '
+               'identical (a function of (array, dt) alone); assignments to public attributes are accepted, ignored (values: the '
+               'setter of the clean code returns without effect) or rejected by the classes - only what get_max_stockwell_freq '
+               'reports afterwards is judged',
                'an swtf found on a signal object is the library\'s doing unless the caller attached it through '
                'c15.caller_attach (the driver\'s explicit presets): whatever the library memoised, carried over or assembled '
                '(combine_at_angle, interp_to_approx_dt, Cluster, deepcopy) must be the transform of the values the object has '
@@ -115,6 +145,14 @@ MIN_EVALS = {
         'asig.swtf==transform(values)[even]': 1100, 'asig.swtf==transform(values)[odd]': 1100,
         'object-unchanged(get_max_stockwell_freq)': 500, 'result-owns-its-data': 45000,
         'oracle.vectorised==scalar': 8,
+        'third-call==first-call(transform)': 450, 'third-call==first-call(transform_w_scipy_fft)': 450,
+        'third-call==first-call(itransform)': 950, 'third-call==first-call(get_max_tifq_vals_freq)': 950,
+        'third-call==first-call(get_max_stockwell_freq)': 950,
+        'refilled-argument.third==first(transform)': 100, 'refilled-argument.third==first(transform_w_scipy_fft)': 100,
+        'refilled-argument.third==first(itransform)': 200, 'refilled-argument.third==first(get_max_tifq_vals_freq)': 200,
+        'protocols.trace-of-own-values[copy]': 800, 'protocols.trace-of-own-values[deepcopy]': 800,
+        'protocols.trace-of-own-values[pickle]': 800,
+        'after-assignment.trace-of-own-values': 350, 'after-refused-operation.trace-of-own-values': 300,
     },
     'thorough': {
         'transform==definition[even]': 14000, 'transform==definition[odd]': 14000,
@@ -135,6 +173,14 @@ MIN_EVALS = {
         'asig.swtf==transform(values)[even]': 2200, 'asig.swtf==transform(values)[odd]': 2200,
         'object-unchanged(get_max_stockwell_freq)': 1500, 'result-owns-its-data': 100000,
         'oracle.vectorised==scalar': 8,
+        'third-call==first-call(transform)': 900, 'third-call==first-call(transform_w_scipy_fft)': 900,
+        'third-call==first-call(itransform)': 1900, 'third-call==first-call(get_max_tifq_vals_freq)': 1900,
+        'third-call==first-call(get_max_stockwell_freq)': 1900,
+        'refilled-argument.third==first(transform)': 200, 'refilled-argument.third==first(transform_w_scipy_fft)': 200,
+        'refilled-argument.third==first(itransform)': 400, 'refilled-argument.third==first(get_max_tifq_vals_freq)': 400,
+        'protocols.trace-of-own-values[copy]': 1600, 'protocols.trace-of-own-values[deepcopy]': 1600,
+        'protocols.trace-of-own-values[pickle]': 1600,
+        'after-assignment.trace-of-own-values': 700, 'after-refused-operation.trace-of-own-values': 600,
     },
 }
 
